@@ -182,7 +182,12 @@ def collect_information(exprs):  # noqa: C901
                     continue
                 sym, term = var
                 if sym.is_leaf():
-                    __sort_lookup[sym.data] = get_sort(term)
+                    try:
+                        sort = get_sort(term)
+                    except Exception:
+                        # the sort of an ill-formed term can not be inferred
+                        sort = None
+                    __sort_lookup[sym.data] = sort
                     __let_bound_symbols.add(sym.data)
                     __definition_node_ids.add(sym.id)
         # Determine sort of symbols introduced by quantifiers
